@@ -446,8 +446,8 @@ def unit_reuse(ctx):
     """Non-initial states: the norm / orientation are read (or a norm is set) FIRST, then the values are changed through
     every public route (in-place element and slice writes into field.array, the array setter, update_field_values),
     then everything is read / set again: the answers must belong to the values the field holds at that moment."""
-    n = ctx.choose("n", [(3,), (2, 2), (1, 2, 3)])
-    d = ctx.choose("nvdim", [1, 3] if ctx.tier == "quick" else [1, 2, 3])
+    n = ctx.choose("n", [(3,), (2, 2), (1, 2, 3)] if ctx.tier == "quick" else [(1,), (3,), (8,), (2, 2), (1, 3), (1, 2, 3), (2, 2, 2)])
+    d = ctx.choose("nvdim", [1, 3] if ctx.tier == "quick" else [1, 2, 3, 4])
     first = ctx.choose("first", ["norm", "orientation", "norm+orientation", "set-norm", "nothing"])
     change = ctx.choose("change", ["array[cell] = v", "array[..., k] *= 10", "array[...] = 0 then one cell", "array = new",
                                    "update_field_values", "none"])
